@@ -253,11 +253,42 @@ def chunking(rng, name, mode):
     return out
 
 
+FR_WORDS = ["avance", "recule", "tourne", "gauche", "droite", "avancer", "dix", "deux", "trois", "un", "et", "à", "mètres", "stop",
+            "le", "la", "oui", "non"]
+FR_JSGF = ["public <s> = (avance | recule) [de] (un | deux | trois | dix) mètres;",
+           "public <s> = (tourne | avance | recule | stop)+ ;",
+           "public <s> = tourne à (gauche | droite) [et avance];",
+           "public <s> = [oui | non] (le | la)* stop;",
+           "public <s> = avance <n> mètres | recule; <n> = un | deux | trois | dix | <NULL>;"]
+FR_ALIGN = ["avance de dix mètres", "tourne à gauche", "oui", "stop stop stop"]
+
+
+def french_dict(ctx):
+    """a small dictionary for the French model, cut out of the bundled one (written once per run)"""
+    path = os.path.join(ctx.work, "fr-matrix.dic")
+    if not os.path.exists(path):
+        want = set(FR_WORDS + ["de"])
+        with open(os.path.join(sut.REPO, "model", "fr-fr", "dict.txt"), encoding="utf-8") as f, open(path, "w", encoding="utf-8") as o:
+            for ln in f:
+                w = ln.split(" ", 1)[0]
+                if w.split("(")[0] in want:
+                    o.write(ln)
+    return path
+
+
 def make_case(rng, ctx, idx, want, opts=None):
     """want: set of {"result","partial","lattice","nbest","alignment","json"}"""
     opts = opts or {}
     cfg = {"hmm": os.path.join(sut.REPO, "model", "en-us"),
            "dict": os.path.join(sut.REPO, "tests", "data", "turtle.dic"), "loglevel": "FATAL"}
+    # one case in twelve runs on the other bundled model (another phone inventory, other model sizes)
+    french = "grammar" not in opts and not opts.get("english_only") and rng.random() < 0.085
+    if french:
+        cfg.update({"hmm": os.path.join(sut.REPO, "model", "fr-fr"), "dict": french_dict(ctx)})
+        if rng.random() < 0.7:
+            opts = dict(opts, grammar=(["jsgf " + hx("#JSGF V1.0;\ngrammar g;\n" + rng.choice(FR_JSGF) + "\n")], "jsgf-fr"))
+        else:
+            opts = dict(opts, grammar=(["align " + hx(rng.choice(FR_ALIGN))], "align-fr"))
     beam = rng.choice(["default", "default", "narrow", "wide"])
     cfg.update(BEAMS[beam])
     cfg.update(opts.get("config", {}))
